@@ -295,8 +295,22 @@ def check(chk, repo, tier):
         if "ctx.use_top_input=True" in seq and "ctx.use_top_input=False" in seq:
             i, j = seq.index("ctx.use_top_input=True"), seq.index(
                 "ctx.use_top_input=False")
-            between = seq[i + 1:j]
-            ok = i < j and len(between) == 1 and "get_input(ctx)" in between[0]
+            between = stmts[i + 1:j]
+            reads = sum(1 for b in between for m in ast.walk(b)
+                        if isinstance(m, ast.Call)
+                        and (dotted(m.func) or "") == "get_input")
+
+            def harmless(b):
+                """no call that could read input while the flag is set:
+                only `stack.append(<name or constant>)`"""
+                calls = [m for m in ast.walk(b) if isinstance(m, ast.Call)]
+                return all(
+                    (dotted(m.func) or "") == "get_input"
+                    or ((dotted(m.func) or "") == "stack.append"
+                        and all(isinstance(a, (ast.Name, ast.Constant))
+                                for a in m.args))
+                    for m in calls)
+            ok = i < j and reads == 1 and all(harmless(b) for b in between)
         chk.ob("C11.explicit-read-template", f"elements[{key!r}]", ok,
                "the input element must set use_top_input, read once with "
                "get_input(ctx) and reset the flag before anything else runs",
